@@ -211,9 +211,11 @@ impl SearchScript {
     }
 }
 
-pub struct SearchRun { pub trials: Vec<(bool, f64, u8, f64)>, pub final_step: f64, pub adapt_step: f64 }
+pub struct SearchRun { pub trials: Vec<(bool, f64, u8, f64)>, pub final_step: f64, pub adapt_step: f64,
+    /// step sizes after 1, 2, 3 further estimator updates (acceptance 0) of the real strategy / of a fresh estimator with the CONFIGURED options started at the found step
+    pub after: Vec<f64>, pub after_ref: Vec<f64> }
 
-pub fn run_search(sc: &SearchScript, adam: bool, target: f64, init: f64) -> SearchRun {
+pub fn run_search(sc: &SearchScript, adam: bool, target: f64, init: f64, da: DualAverageOptions, ao: AdamOptions) -> SearchRun {
     let mut math: MMath = CpuMath::new(Dummy(1));
     let orbit = Orbit { energy: Box::new(|_| 0.0), turning: Box::new(|_, _| false), fault: Default::default() };
     let mut ham = MockHam::new(&mut math, orbit, 0);
@@ -221,7 +223,7 @@ pub fn run_search(sc: &SearchScript, adam: bool, target: f64, init: f64) -> Sear
     ham.one_step_energy = Some(Box::new(move |fwd, step| sc2.energy_err(fwd, step)));
     let settings = StepSizeSettings {
         target_accept: target, initial_step: init, jitter: None,
-        adapt_options: StepSizeAdaptOptions { method: if adam { StepSizeAdaptMethod::Adam } else { StepSizeAdaptMethod::DualAverage }, ..Default::default() },
+        adapt_options: StepSizeAdaptOptions { method: if adam { StepSizeAdaptMethod::Adam } else { StepSizeAdaptMethod::DualAverage }, dual_average: da, adam: ao },
     };
     let mut strat = StepSizeStrategy::new(settings);
     let mut opts = NutsOptions::default();
@@ -231,8 +233,12 @@ pub fn run_search(sc: &SearchScript, adam: bool, target: f64, init: f64) -> Sear
     let final_step = ham.step_size();
     strat.update_stepsize(&mut rng, &mut ham, false);
     let adapt_step = ham.step_size();
+    // the estimator the search leaves behind must be a fresh one with the configured options, started at the found step
+    let mut after = vec![];
+    for _ in 0..3 { strat.update_estimator_early(); strat.update_stepsize(&mut rng, &mut ham, false); after.push(ham.step_size()); }
+    let after_ref: Vec<f64> = if adam { run_adam(ao, final_step, target, &[0.0, 0.0, 0.0]) } else { run_da(da, final_step, target, &[0.0, 0.0, 0.0]).into_iter().map(|x| x.0).collect() };
     let trials = log.borrow().iter().filter_map(|e| match e { Ev::Leap { outcome, energy_err, step, dir_fwd, .. } => Some((*dir_fwd, *step, *outcome, *energy_err)), _ => None }).collect();
-    SearchRun { trials, final_step, adapt_step }
+    SearchRun { trials, final_step, adapt_step, after, after_ref }
 }
 
 fn search_oracle(run: &SearchRun, target: f64, init: f64) -> Option<String> {
@@ -255,6 +261,11 @@ fn search_oracle(run: &SearchRun, target: f64, init: f64) -> Option<String> {
         if if fwd { at <= target } else { at >= target } {
             return Some(format!("search continued past step {} although its acceptance {at} already crossed target {target}", t.1));
         }
+    }
+    // ... and WITH the configured options: the next updates are those of a fresh estimator (configured k, t0, gamma, max_step_size resp. Adam
+    // options) started at that step
+    if run.after.iter().zip(run.after_ref.iter()).any(|(a, b)| a.to_bits() != b.to_bits()) {
+        return Some(format!("after the search (step {}) three estimator updates give steps {:?}; a fresh estimator with the configured options started there gives {:?}", run.final_step, run.after, run.after_ref));
     }
     // the adaptation (dual averaging or Adam) is restarted AT the step the search found
     if !((run.adapt_step / run.final_step - 1.0).abs() <= 1e-12) {
@@ -312,7 +323,11 @@ fn search_cases(tier: &str, seed: u64, cases: &mut Cases, rep: &mut Report) {
         let target = r.range(0.05, 0.99);
         let init = r.log_uniform(1e-6, 1e3);
         let adam = case % 2 == 1;
-        let run = run_search(&sc, adam, target, init);
+        // non-default estimator options in two thirds of the cases
+        let (da, ao) = if case % 3 == 0 { (DualAverageOptions::default(), AdamOptions::default()) } else {
+            (DualAverageOptions { k: r.range(0.55, 0.95), t0: r.range(1.0, 30.0), gamma: r.log_uniform(0.01, 1.0), max_step_size: r.log_uniform(1e-2, 1e3) },
+             AdamOptions { beta1: r.range(0.0, 0.99), beta2: r.range(0.5, 0.9999), epsilon: r.log_uniform(1e-10, 1e-3), learning_rate: r.log_uniform(1e-3, 0.5) }) };
+        let run = run_search(&sc, adam, target, init, da, ao);
         rep.evaluations += 1;
         let moved = run.trials.len() > 2;
         if moved { rep.nontrivial += 1; }
@@ -323,7 +338,8 @@ fn search_cases(tier: &str, seed: u64, cases: &mut Cases, rep: &mut Report) {
         cases.line(&lb.0);
         if let Some(msg) = search_oracle(&run, target, init) {
             rep.violation("search.bracket", &msg, json!({"kind": "search", "seed": seed, "case": case, "adam": adam, "target": target, "init": init,
-                "script": {"cf": sc.cf, "pf": sc.pf, "cb": sc.cb, "pb": sc.pb, "fail_above": sc.fail_above.min(1e300), "fail_below": sc.fail_below, "fail_first": sc.fail_first}}));
+                "script": {"cf": sc.cf, "pf": sc.pf, "cb": sc.cb, "pb": sc.pb, "fail_above": sc.fail_above.min(1e300), "fail_below": sc.fail_below, "fail_first": sc.fail_first},
+                "da": {"k": da.k, "t0": da.t0, "gamma": da.gamma, "max_step_size": da.max_step_size}, "adam_options": {"beta1": ao.beta1, "beta2": ao.beta2, "epsilon": ao.epsilon, "learning_rate": ao.learning_rate}}));
         }
         if case < 2 { rep.sample(json!({"kind": "search", "target": target, "init": init, "trials": run.trials.iter().take(6).map(|t| (t.0, t.1, t.2)).collect::<Vec<_>>(), "final_step": run.final_step})); }
     }
@@ -383,7 +399,9 @@ pub fn replay(v: &serde_json::Value) -> bool {
             let sv = &v["script"];
             let sc = SearchScript { cf: f(&sv["cf"]), pf: f(&sv["pf"]), cb: f(&sv["cb"]), pb: f(&sv["pb"]),
                 fail_above: { let x = f(&sv["fail_above"]); if x >= 1e300 { f64::INFINITY } else { x } }, fail_below: f(&sv["fail_below"]), fail_first: sv["fail_first"].as_bool().unwrap() };
-            let run = run_search(&sc, v["adam"].as_bool().unwrap(), f(&v["target"]), f(&v["init"]));
+            let da = if v["da"].is_object() { DualAverageOptions { k: f(&v["da"]["k"]), t0: f(&v["da"]["t0"]), gamma: f(&v["da"]["gamma"]), max_step_size: f(&v["da"]["max_step_size"]) } } else { DualAverageOptions::default() };
+            let ao = if v["adam_options"].is_object() { AdamOptions { beta1: f(&v["adam_options"]["beta1"]), beta2: f(&v["adam_options"]["beta2"]), epsilon: f(&v["adam_options"]["epsilon"]), learning_rate: f(&v["adam_options"]["learning_rate"]) } } else { AdamOptions::default() };
+            let run = run_search(&sc, v["adam"].as_bool().unwrap(), f(&v["target"]), f(&v["init"]), da, ao);
             let r = search_oracle(&run, f(&v["target"]), f(&v["init"]));
             println!("replay: {} trials, final step {}, oracle: {:?}", run.trials.len(), run.final_step, r);
             r.is_some()
